@@ -23,7 +23,7 @@ import numpy as np
 import common
 from common import Check, main_wrapper
 
-PROFILES = ["conv", "elementwise", "memory", "cascade", "mixed", "cpu", "approx", "cascade", "weights", "mixed"]
+PROFILES = ["conv", "elementwise", "memory", "cascade", "mixed", "cpu", "approx", "cascade", "weights", "mixed", "softmax", "inplace"]
 
 
 # ------------------------------------------------------------------------------------------------
@@ -55,9 +55,105 @@ def pick_padding(rng, k, s):
     return rng.choice(["SAME", "VALID"])
 
 
+def add_softmax(b, rng, x, beta=None):
+    """SOFTMAX over the innermost dimension with the output quantisation the reference kernels demand"""
+    import netgen
+
+    xt = b.t(x)
+    if beta is None:
+        beta = rng.choice([0.1, 0.7, 1.0, 1.0, 1.3, 3.0, round(rng.uniform(0.05, 4.0), 3)])
+    o = b.fm(list(xt.shape), xt.dtype, scale=1.0 / 256 if xt.dtype != "int16" else 1.0 / 32768,
+             zp={"int8": -128, "uint8": 0, "int16": 0}[xt.dtype])
+    b.net.ops.append(netgen.Op("SOFTMAX", [x], [o], ("SoftmaxOptions", dict(Beta=float(beta)))))
+    b.net.desc.append(f"softmax(beta={beta})")
+    return o
+
+
+def gen_softmax(rng, idx):
+    """SOFTMAX behind 0-2 ordinary operators; rank 2-4; beta not only 1.0 (the table of exponentials depends on it)"""
+    dtype = rng.choice(["int8"] * 5 + ["uint8"] * 3 + ["int16"] * 1)
+    b = make_builder(rng, f"c01_softmax_{idx}", dtype)
+    h, w, c = rng.choice([1, 1, 2, 3, 5]), rng.choice([1, 1, 2, 4, 7]), rng.choice([1, 2, 3, 5, 10, 16, 17, 33, 40])
+    x = b.input([1, h, w, c])
+    b.net.desc.append(f"profile=softmax dtype={dtype} in={[1, h, w, c]}")
+    cur = x
+    pre = rng.choice(["none", "none", "conv1x1", "fc", "add_self", "reshape2", "reshape3"])
+    b.net.desc.append(pre)
+    if pre == "conv1x1":
+        cur = b.conv(cur, rng.choice([2, 5, 10, 16, 21]), (1, 1), (1, 1), (1, 1), "SAME", act=0)
+    elif pre == "fc" and h * w * c <= 512:
+        cur = b.fc(b.reshape(cur, [1, h * w * c]), rng.choice([2, 10, 16, 33]), act=0)
+    elif pre == "add_self":
+        cur = b.binary("ADD", cur, cur)
+    elif pre == "reshape2":
+        cur = b.reshape(cur, [h * w, c])
+    elif pre == "reshape3":
+        cur = b.reshape(cur, [h, w, c])
+    y = add_softmax(b, rng, cur)
+    return b.finish([y])
+
+
+def gen_inplace(rng, idx):
+    """A tensor produced outside the Ethos-U operator (graph input or output of a CPU-resident operator) that is read by one
+    elementwise operator whose result may be written over it AND by something that runs later: a CPU-resident operator that
+    also needs the elementwise result (MINIMUM / MAXIMUM of differently quantised tensors is not supported by the NPU and the
+    reference kernel takes the raw minimum / maximum), or a second Ethos-U operator behind that CPU operator. Overwriting the
+    tensor is only allowed when nothing reads it afterwards (`ifm_write_protected`)."""
+    import netgen
+
+    dtype = rng.choice(["int8"] * 6 + ["uint8"] * 3 + ["int16"] * 1)
+    b = make_builder(rng, f"c01_inplace_{idx}", dtype)
+    variant = rng.choice(["cpu_reader", "cpu_reader", "cpu_produced", "second_island", "two_inputs"])
+    h, w = rng.randint(1, 10), rng.randint(1, 10)
+    c = rng.choice([1, 3, 4, 8, 16, 17])
+    x = b.input([1, h, w, c])
+    b.net.desc.append(f"profile=inplace variant={variant} dtype={dtype} in={[1, h, w, c]}")
+    src = x
+    if variant == "cpu_produced":
+        src = b.conv(x, rng.choice([4, 8]), (1, 1), (4, 4), (1, 1), "SAME", act=0)     # mostly CPU-resident (stride 4)
+    lo, hi = netgen._qrange(dtype)
+
+    def elementwise(t):
+        tt = b.t(t)
+        kind = rng.choice(["ADD", "SUB", "MUL", "ADD", "MINIMUM", "MAXIMUM", "LEAKY_RELU"])
+        b.net.desc.append("ew:" + kind)
+        if kind == "LEAKY_RELU":
+            return b.unary("LEAKY_RELU", t)
+        same = kind in ("MINIMUM", "MAXIMUM")
+        if variant == "two_inputs":
+            other = b.input(list(tt.shape), scale=tt.scales[0], zp=tt.zps[0]) if same else b.input(list(tt.shape))
+        else:
+            shp = rng.choice([list(tt.shape), list(tt.shape), [1, 1, 1, tt.shape[3]], [1, 1, 1, 1]])
+            r = np.random.RandomState(rng.getrandbits(32))
+            other = b.const(shp, dtype, r.randint(lo, hi + 1, int(np.prod(shp))), [tt.scales[0] if same else netgen.rand_scale(rng)],
+                            [tt.zps[0] if same else netgen.rand_zp(rng, dtype)])
+        args = (t, other) if rng.random() < 0.7 else (other, t)
+        return b.binary(kind, *args)
+
+    def cpu_minmax(p, q):
+        # output quantisation differs from both inputs: stays on the CPU
+        o = b.fm(list(b.t(p).shape), dtype)
+        kind = rng.choice(["MINIMUM", "MAXIMUM"])
+        b.net.ops.append(netgen.Op(kind, [p, q], [o], ("MaximumMinimumOptions", {})))
+        b.net.desc.append("cpu:" + kind)
+        return o
+
+    e = elementwise(src)
+    z = cpu_minmax(*((src, e) if rng.random() < 0.5 else (e, src)))
+    outs = [z] if rng.random() < 0.6 else [e, z]
+    if variant == "second_island":
+        u = b.binary(rng.choice(["ADD", "MUL", "SUB"]), src, z)
+        outs = [u] if rng.random() < 0.5 else [z, u]
+    return b.finish(outs)
+
+
 def gen_net(rng, idx, profile):
     import netgen
 
+    if profile == "softmax":
+        return gen_softmax(rng, idx)
+    if profile == "inplace":
+        return gen_inplace(rng, idx)
     dtype = rng.choice(["int8"] * 6 + ["uint8"] * 3 + ["int16"] * 1)
     b = make_builder(rng, f"c01_{profile}_{idx}", dtype)
     if profile == "cascade":
